@@ -19,13 +19,7 @@ _NOTE = ("Trusted base: the harness (world generator, monitors, reference ledger
 
 
 def _t(level, technique, ref="DESIGN.md section 4", note=_NOTE):
-    return {"level": level, "technique": technique, "ref": ref, "note": note    "C19": _t("Seeded generation of descriptions rendered as YAML/JSON and loaded by the real loaders, compared "
-              "field by field with the spec; release times per policy, fresh isomorphic copies per invocation and "
-              "deadline = release + critical-path/SLO base stretched within variance and bounds (base recomputed by "
-              "path enumeration). Only the closed-loop clause depends on the run and is checked at every event "
-              "boundary of simulated runs under completing and cancelling policies.",
-              "deterministic simulation for the closed-loop clause (in-flight bound at every event boundary under cancelling policies); spec-vs-loaded-object comparison at world construction for the rest"),
-}
+    return {"level": level, "technique": technique, "ref": ref, "note": note}
 
 
 TEXT = {
@@ -108,5 +102,10 @@ TEXT = {
               "notification in a run is compared with a reference frontier built from the shadow task states and "
               "the spec's parent map.",
               "deterministic simulation: per-call frontier oracle + completion-release oracle"),
+    "C19": _t("Seeded generation of descriptions rendered as YAML/JSON and loaded by the real loaders, compared "
+              "field by field with the spec; release times per policy, fresh isomorphic copies per invocation and "
+              "deadline = release + critical-path/SLO base stretched within variance and bounds (base recomputed by "
+              "path enumeration). Only the closed-loop clause depends on the run and is checked at every event "
+              "boundary of simulated runs under completing and cancelling policies.",
+              "deterministic simulation for the closed-loop clause (in-flight bound at every event boundary under cancelling policies); spec-vs-loaded-object comparison at world construction for the rest"),
 }
-
